@@ -192,31 +192,41 @@ def coq_N(n):
 
 # ------------------------------------------------------------------ Go
 
-def make_overlay():
-    """overlay.json: harness programs and verif-tagged hook files appear inside /repo's module;
-    no tracked file in /repo changes."""
+def make_overlay(name=None):
+    """overlay-<name>.json: the harness program <name> and the verif-tagged hook files of the
+    packages it imports directly appear inside /repo's module; no tracked file in /repo changes.
+    (Hooks of packages the harness does not import are left out, so a hook that another property's
+    harness needs cannot break this build.)"""
     os.makedirs(BUILD, exist_ok=True)
     rep = {}
     hroot = os.path.join(VERIF, "harness")
-    for name in sorted(os.listdir(hroot)):
-        d = os.path.join(hroot, name)
-        if not os.path.isdir(d):
+    imported = None
+    for hname in sorted(os.listdir(hroot)):
+        d = os.path.join(hroot, hname)
+        if not os.path.isdir(d) or (name is not None and hname != name):
             continue
         for root, _, files in os.walk(d):
             for f in files:
                 if f.endswith(".go"):
                     rel = os.path.relpath(os.path.join(root, f), hroot)
                     rep[os.path.join(REPO, "internal", "verifharness", rel)] = os.path.join(root, f)
+                    if name is not None:
+                        imported = imported or set()
+                        txt = open(os.path.join(root, f), encoding="utf-8").read()
+                        for m in re.finditer(r'"github.com/hashicorp/consul/([^"]+)"', txt):
+                            imported.add(m.group(1))
     kroot = os.path.join(VERIF, "hooks")
     for root, _, files in os.walk(kroot):
         for f in files:
             if f.endswith(".go"):
                 rel = os.path.relpath(os.path.join(root, f), kroot)
                 assert os.path.basename(f).startswith("zz_verif_"), f
+                if imported is not None and os.path.dirname(rel) not in imported:
+                    continue
                 target = os.path.join(REPO, rel)
                 assert not os.path.exists(target), "hook would shadow a tracked file: " + target
                 rep[target] = os.path.join(root, f)
-    path = os.path.join(BUILD, "overlay.json")
+    path = os.path.join(BUILD, "overlay%s.json" % ("-" + name if name else ""))
     with Lock("overlay"):
         new = json.dumps({"Replace": rep}, indent=1, sort_keys=True)
         if not os.path.exists(path) or open(path).read() != new:
@@ -226,7 +236,7 @@ def make_overlay():
 
 def go_build(name, race=False, timeout=3000):
     """Build harness <name> from /repo's current working tree. Returns path of the binary."""
-    ov = make_overlay()
+    ov = make_overlay(name)
     out = os.path.join(BUILD, "bin", name + ("-race" if race else ""))
     os.makedirs(os.path.dirname(out), exist_ok=True)
     cmd = [GO, "build", "-tags", "verif", "-overlay", ov, "-o", out]
